@@ -44,6 +44,8 @@ def case_st(draw, shapes):
                                                   allow_malformed=False, allow_diff=True))
     sc["transforms"] = tx
     sc["insertions"] = inforce
+    sc["read_order"] = draw(st.permutations(
+        ["scale_mean", "scale_mean_stddev", "scale_mean_stderr", "scale_median"]))
     return sc
 
 
@@ -92,7 +94,17 @@ def judge_slice(case, rec):
         prefix = "rows" if axis == 0 else "columns"
         values = opp_dim.numeric_values()
         got = {n: getattr(part, "%s_%s" % (prefix, n))
-               for n in ("scale_mean", "scale_mean_stddev", "scale_mean_stderr", "scale_median")}
+               for n in case.get("read_order", ("scale_mean", "scale_mean_stddev",
+                                                "scale_mean_stderr", "scale_median"))}
+        # a second read of each must not differ from the first (no in-place edits)
+        for n in list(got):
+            again = getattr(part, "%s_%s" % (prefix, n))
+            if (got[n] is None) != (again is None) or (
+                    got[n] is not None and not np.array_equal(
+                        np.asarray(got[n], dtype=float), np.asarray(again, dtype=float),
+                        equal_nan=True)):
+                rec.violation("%s_%s changes between two reads: %r then %r" % (
+                    prefix, n, got[n], again), "reread")
         has_values = any(v is not None for v in values)
         margin = getattr(part, "%s_margin" % prefix)
         rec.compared()
